@@ -78,6 +78,22 @@ def body_set(proc):
     return ok
 
 
+def body_set_long(proc):
+    from evo import main_config
+    mod = exec_settings()
+    ok = _keys_ok(mod)
+    main_config.set_config(mod.DEFAULT_PATH, ["plot_backend", "B" * 400])
+    return ok
+
+
+def body_set_same_pid(proc):
+    """a later process that got the pid of process 0 again"""
+    return body_set(proc)
+
+
+body_set_same_pid.vpid = 1000
+
+
 def body_merge(proc):
     from evo import main_config
     mod = exec_settings()
@@ -89,6 +105,7 @@ def body_merge(proc):
 BODIES = {
     "start": body_start, "reset": body_reset, "reset_subset":
     body_reset_subset, "set": body_set, "merge": body_merge,
+    "set_long": body_set_long, "set_same_pid": body_set_same_pid,
 }
 
 
@@ -101,12 +118,18 @@ def _fs(kind):
     if kind.startswith("outdated:"):
         marker = kind.split(":", 1)[1].encode()
         kind = "outdated"
+    extra = kind == "outdated+extra"
+    if extra:
+        kind = "outdated"
     if kind in ("init", "outdated"):
         dirs.append(EVO)
         d = dict(DEFAULT_SETTINGS_DICT)
         if kind == "outdated":
             for k in sorted(d)[:5]:
                 del d[k]
+            if extra:
+                for k in range(6):
+                    d["dropped_in_a_newer_release_%d" % k] = k
             d["plot_backend"] = "UserChoice"
             files[VERSION] = marker
         else:
@@ -179,6 +202,15 @@ SCENARIOS = {
     "crash:reset-subset": ("init", ["reset_subset", "start"], {1}),
     "crash:set": ("init", ["set", "start"], {1}),
     "crash:merge": ("init", ["merge", "start"], {1}),
+    # a long edit is killed; later a process with the SAME pid edits again
+    # (whatever the first one left behind under a pid-derived name is still
+    # there), then a fresh start
+    "crash:set-long+set-same-pid": ("init", ["set_long", "set_same_pid",
+                                             "start"], {1, 2}),
+    # an outdated file that lacks default keys but still carries keys that
+    # newer releases dropped (as many keys in total as the defaults)
+    "crash:upgrade-with-dropped-keys": ("outdated+extra", ["start", "start"],
+                                        {1}),
     "race:2-starts-empty": ("empty", ["start", "start"], set()),
     "race:2-starts-outdated": ("outdated", ["start", "start"], set()),
     "race:set+start": ("init", ["set", "start"], set()),
@@ -208,6 +240,8 @@ def run(ctx):
         ("crash:upgrade-from-v1.9.0", 1), ("crash:upgrade-empty-marker", 1),
         ("crash:reset", 1),
         ("crash:reset-subset", 1), ("crash:set", 1), ("crash:merge", 1),
+        ("crash:set-long+set-same-pid", 1),
+        ("crash:upgrade-with-dropped-keys", 1),
         ("race:2-starts-empty", 0), ("race:2-starts-outdated", 0),
         ("race:set+start", 0), ("race:reset+start", 0),
     ]
